@@ -209,7 +209,7 @@ def check_scope(lang, recs, findings):
                              % (t1, t2, code.replace("\n", " "), " / ".join(allowed), rule)))
 
 
-def check_output_gaps(sp, fin, recs, findings):
+def check_output_gaps(sp, fin, recs, findings, src=None):
     """the blanks actually WRITTEN between the two chunks of a decided pair (hook H1: the characters emitted per chunk) against the
     decision space_text() took for it: force = exactly max(1, min) blanks, remove = none, add = at least one.  Decisions are
     taken before the output stage, which is free to recompute a column (it does for backslash-newlines)."""
@@ -246,7 +246,9 @@ def check_output_gaps(sp, fin, recs, findings):
         if rec["av"] == 0:
             # Ignore keeps presence or absence as in the input: judged for two chunks that stood on one input line, in this order
             b = fin[i]
-            if a["orig_line"] == b["orig_line"] and a["orig_line"] > 0 and 0 < a["orig_col"] < b["orig_col"] and a["orig_col_end"] > 0:
+            # a backslash-newline that a newline option inserted into a macro body carries the position of a neighbour: only continuations of the input count
+            in_input = not cont or (src is not None and 0 < b["orig_line"] <= len(src) and src[b["orig_line"] - 1].rstrip(b" \t\r").endswith(b"\\"))
+            if in_input and a["orig_line"] == b["orig_line"] and a["orig_line"] > 0 and 0 < a["orig_col"] < b["orig_col"] and a["orig_col_end"] > 0:
                 had = b["orig_col"] > a["orig_col_end"]
                 if had != (n > 0):
                     cause = rec["rule"] if " from " in rec["rule"] else rec["rule"].split(" ")[0]
@@ -315,7 +317,7 @@ def run(rep, build, tier, seed):
         wf, wn = [], 0
         if rc_ == 0 and os.path.exists(prefix + ".0.fin") and os.path.exists(prefix + ".0.out"):
             _, _, fin = dumps.parse_chunks(prefix + ".0.fin")
-            wn = check_output_gaps(recs, fin, dumps.parse_out(prefix + ".0.out"), wf)
+            wn = check_output_gaps(recs, fin, dumps.parse_out(prefix + ".0.out"), wf, src=open(inp, "rb").read().split(b"\n"))
         return job, rc_, recs, wf, wn
     pairs = written = 0
     vals_cache = {}
@@ -436,7 +438,7 @@ def replay(rp, build):
         if rp.get("scope"):
             check_scope(rp["lang"], recs, f)
         if os.path.exists(prefix + ".0.fin") and os.path.exists(prefix + ".0.out"):
-            check_output_gaps(recs, dumps.parse_chunks(prefix + ".0.fin")[2], dumps.parse_out(prefix + ".0.out"), f)
+            check_output_gaps(recs, dumps.parse_chunks(prefix + ".0.fin")[2], dumps.parse_out(prefix + ".0.out"), f, src=open(rp["input"], "rb").read().split(b"\n"))
         for k, w in f[:10]:
             print("VIOLATION reproduced:", w)
         if not f:
